@@ -194,8 +194,11 @@ def c_args(framed, buf, max_args):
     return hdr(OP_ARGS, 0, framed).u32(max_args).blob(buf).done()
 
 
-def c_line(sub, buf):
-    return hdr(OP_LINE, sub, 0).blob(buf).done()
+def c_line(sub, buf, off=None, size=None):
+    w = hdr(OP_LINE, sub, 0).blob(buf)
+    if sub == 5:
+        w.u32(off).u32(size)
+    return w.done()
 
 
 def c_crc(var, align, data, chunks=()):
